@@ -146,8 +146,17 @@ func gen(r *sim.Rng, tier string) *sim.Case {
 	}
 	c := &sim.Case{Params: map[string]int{}}
 	req := []int{1, 2, 2, 3, 3, 4, 4, 5, 8, 9}[r.N(10)]
-	if r.Pct(2) {
+	switch {
+	case r.Pct(2):
 		req = []int{16, 100, 1 << 10, 1 << 16}[r.N(4)]
+	case r.Pct(12):
+		// "every capacity": any requested capacity up to a few thousand, with a preference for
+		// values next to powers of two and next to 1.5 times a power of two
+		req = r.Range(10, 4200)
+		if r.Bool() {
+			b := 1 << r.Range(3, 11)
+			req = []int{b - 1, b, b + 1, b + 2, b + b/2, b + b/2 + 1, b + b/2 - 1}[r.N(7)]
+		}
 	}
 	c.Params["cap_req"] = req
 	capEff := 2
@@ -529,7 +538,10 @@ func check(run *enga.Run) *sim.Violation {
 			ops = append(ops, o)
 		}
 	}
-	if len(ops) > 0 && len(ops) <= 60 {
+	if len(ops) > 40 {
+		run.Out.Probes["history_too_long_for_linearizability_check"]++
+	}
+	if len(ops) > 0 && len(ops) <= 40 {
 		switch enga.CheckLin(enga.QueueModel(x.cap, x.init), ops) {
 		case porcupine.Ok:
 			run.Out.PorcOK++
